@@ -457,3 +457,15 @@ impl Drop for RawPacketStream {
         }
     }
 }
+
+/// Doors for the verification harness (see `verif_hooks.rs`). Adapters only.
+#[cfg(feature = "verif")]
+impl IcmpForwarder {
+    pub(crate) fn verif_waiters_len(&self) -> (usize, usize) {
+        let l = self.shared.listeners.lock().unwrap();
+        (
+            l.reply_waiters.len(),
+            l.deadlines.values().map(|x| x.len()).sum(),
+        )
+    }
+}
